@@ -20,6 +20,14 @@ fn strings(alpha: &[&str], min: usize, max: usize) -> Vec<String> {
     out
 }
 
+/// `padded` is `text` with nothing but fill characters (spaces or asterisks) around it.
+fn only_padded(padded: &str, text: &str) -> bool {
+    padded.match_indices(text).any(|(i, _)| {
+        let (l, r) = (&padded[..i], &padded[i + text.len()..]);
+        l.chars().chain(r.chars()).all(|c| c == ' ' || c == '*')
+    }) || (text.is_empty() && padded.chars().all(|c| c == ' ' || c == '*'))
+}
+
 fn check_nevra(n: &str, e: &str, v: &str, r: &str, a: &str, prio: u64, acc: &mut Acc) {
     acc.evals += 1;
     let case = || json!({"kind": "nevra", "name": n, "epoch": e, "version": v, "release": r, "arch": a});
@@ -31,7 +39,7 @@ fn check_nevra(n: &str, e: &str, v: &str, r: &str, a: &str, prio: u64, acc: &mut
         // formatting options of the caller (width, fill, alignment, a precision longer than the text) may pad the whole text, not re-shape it
         let mut fmt_differs = None;
         for padded in [format!("{:>64}", val), format!("{:<64}", val), format!("{:*^64}", val), format!("{:.4096}", val)] {
-            if padded.trim_matches(|c| c == ' ' || c == '*') != text {
+            if !only_padded(&padded, &text) {
                 fmt_differs = Some(format!("formatted with a width / precision the NEVRA reads {:?}, plainly it reads {:?}", padded, text));
             }
         }
@@ -93,7 +101,7 @@ fn check_evr(e: &str, v: &str, r: &str, prio: u64, acc: &mut Acc) {
         let norm = val.as_normalized_form();
         let mut fmt_differs = None;
         for padded in [format!("{:>64}", val), format!("{:<64}", val), format!("{:*^64}", val), format!("{:.4096}", val)] {
-            if padded.trim_matches(|c| c == ' ' || c == '*') != text {
+            if !only_padded(&padded, &text) {
                 fmt_differs = Some(format!("formatted with a width / precision the EVR reads {:?}, plainly it reads {:?}", padded, text));
             }
         }
@@ -153,8 +161,12 @@ fn check_nopanic(s: &str, acc: &mut Acc) {
 pub fn run(ctx: &Ctx) -> i32 {
     let names: Vec<String> = strings(&["a", "1", "-", "."], 1, if ctx.thorough() { 4 } else { 3 }).into_iter().filter(|s| !s.starts_with('-')).collect();
     let epochs = ["", "0", "1", "12", "00", "01", "2147483647", "2147483648", "4294967295"];
-    let vers = strings(&["1", "a", "."], 1, 2);
-    let rels = strings(&["1", "a", "."], 1, 2);
+    let vers = strings(&["1", "a", ".", "0"], 1, 2);
+    let rels = strings(&["1", "a", ".", "0"], 1, 2);
+    // dependency versions have no release: EVRs (not NEVRAs) also with an empty release
+    let evr_rels: Vec<String> = std::iter::once(String::new()).chain(rels.iter().cloned()).collect();
+    // longer versions with zero-padded numeric segments
+    let evr_vers: Vec<String> = vers.iter().cloned().chain(["1.05", "2023.01.09", "5.008", "00", "0.0", "1.0a01", "007"].iter().map(|s| s.to_string())).collect();
     let archs = ["x", "noarch", "x86_64", ""]; // "" as in gpg-pubkey packages
     let rad = [names.len() as u64, epochs.len() as u64, vers.len() as u64, rels.len() as u64, archs.len() as u64];
     let n = vlib::par::product(&rad);
@@ -165,7 +177,7 @@ pub fn run(ctx: &Ctx) -> i32 {
     let mut s1 = SubReport::new(
         "nevra",
         "A",
-        &format!("all {} tuples: name ∈ strings of length 1..3 over {{a,1,-,.}} not starting with '-', epoch ∈ {:?}, version and release ∈ strings of length 1..2 over {{1,a,.}}, arch ∈ {:?}; to_string/parse, as_normalized_form/parse, parse_values, nvra; plus the asset packages' own NEVRAs, plus 891 tuples whose name contains the package's own version, release, architecture or the whole '-V-R.A' text (once, twice, with a suffix)", n, epochs, archs),
+        &format!("all {} tuples: name ∈ strings of length 1..3 over {{a,1,-,.}} not starting with '-', epoch ∈ {:?}, version and release ∈ strings of length 1..2 over {{1,a,.,0}}, arch ∈ {:?}; to_string/parse, as_normalized_form/parse, parse_values, nvra; plus the asset packages' own NEVRAs, plus 891 tuples whose name contains the package's own version, release, architecture or the whole '-V-R.A' text (once, twice, with a suffix)", n, epochs, archs),
         a,
     );
     // asset packages
@@ -214,13 +226,13 @@ pub fn run(ctx: &Ctx) -> i32 {
     }
     s1.acc.merge(selfsim);
 
-    let erad = [epochs.len() as u64, vers.len() as u64, rels.len() as u64];
+    let erad = [epochs.len() as u64, evr_vers.len() as u64, evr_rels.len() as u64];
     let en = vlib::par::product(&erad);
     let b = merge(par_fold(en, Acc::new, |i, acc| {
         let d = vlib::par::decode(i, &erad);
-        check_evr(epochs[d[0] as usize], &vers[d[1] as usize], &rels[d[2] as usize], i, acc);
+        check_evr(epochs[d[0] as usize], &evr_vers[d[1] as usize], &evr_rels[d[2] as usize], i, acc);
     }));
-    let s2 = SubReport::new("evr", "A", &format!("all {} (epoch, version, release) tuples over the same component sets", en), b);
+    let s2 = SubReport::new("evr", "A", &format!("all {} (epoch, version, release) tuples over the same component sets, plus seven longer versions with zero-padded numeric segments (1.05, 2023.01.09, …) and the empty release (a dependency version such as 4:5.30)", en), b);
 
     // compression types
     let mut c = Acc::new();
@@ -252,6 +264,18 @@ pub fn run(ctx: &Ctx) -> i32 {
             acc.sample(i, || json!({"text": s}));
         }
     }));
+    // the whole character domain: every Unicode scalar value inside each component
+    let u = merge(par_fold(0x11_0000, Acc::new, |cp, acc| {
+        let Some(c) = char::from_u32(cp as u32) else { return };
+        // the characters that delimit the components cannot be inside every component; NUL is not text for rpm
+        if matches!(c, '-' | ':' | '.' | '\0') {
+            return;
+        }
+        check_nevra(&format!("a{}b", c), "1", &format!("2{}", c), &format!("{}3", c), "x", cp.wrapping_mul(0x9e3779b97f4a7c15), acc);
+        check_evr("", &format!("{}", c), &format!("r{}", c), cp.wrapping_mul(0x9e3779b97f4a7c15), acc);
+        check_nopanic(&format!("{0}-{0}:{0}-{0}.{0}", c), acc);
+    }));
+    let s5 = SubReport::new("unicode-scalars", "A", "every Unicode scalar value except '-', ':', '.' and NUL inside the name, the version and the release of a NEVRA and of an EVR (round trip as for the tuples), and in every component position of a text given to the parsers (no panic)", u);
     let mut s4 = SubReport::new("no-panic", "A", &format!("every string of length ≤ {} over {{a,1,-,.,:}} plus \"none\", \"gzip\", …, every sequence of ≤ 3 words from the vocabulary of compressor names and rpm payload flags (gzip … none, gzdio … ufdio, w, 9, 19, T, L, '.', ' ', '-') in both cases, and texts of length 3 … 4096 (every power of two ± 1) with a 2-, 3- or 4-byte character straddling the boundary, through Nevra::parse, Evr::parse, parse_values, rpm_evr_compare, CompressionType::from_str", l), d);
     for w in ["none", "gzip", "zstd", "xz", "bzip2", "", "é", "-:-.", ":::", "---"] {
         check_nopanic(w, &mut s4.acc);
@@ -285,7 +309,7 @@ pub fn run(ctx: &Ctx) -> i32 {
     s4.acc.nontrivial = s4.acc.evals; // every string is a case of the no-panic clause
     ctx.finish(
         "exploration",
-        vec![s1, s2, s3, s4],
+        vec![s1, s2, s3, s4, s5],
         &["component values a real package can carry: name without ':' not starting with '-'; version/release without '-' and ':'; arch without '.' and '-'"],
         vec![],
     )
